@@ -82,6 +82,8 @@ def run_check(prop, tier, seed, replay=None):
         payload = json.load(open(replay))
         return mod.replay(ctx, payload)
 
+    import warnings
+    warnings.simplefilter("ignore")
     ctx.trusted = list(COMMON_TRUSTED) + list(getattr(mod, "TRUSTED", []))
     ctx.assumptions = list(getattr(mod, "ASSUMPTIONS", []))
     ctx.rule = getattr(mod, "RULE", "")
